@@ -35,7 +35,7 @@ MANIFEST_ENTRY = {
             "only where the fitted constant recovers the true centre (point-symmetric problems; odd ROI exact, even ROI limited by "
             "intensity on the Nyquist row/column) — other cases are counted as not applicable and reported. Object / probe hard "
             "constraints (global phase, Gram-Schmidt) belong to C10: the model takes the constrained arrays the library reports. "
-            "Rotation of the scan is fixed to 0 through the public preprocess arguments.",
+            "Scan rotation / transposition: positions modelled and compared, predicate evaluated; the rotated object shape is read back.",
     "technique": "Lean 4 proof (list permutation algebra of fftshift/ifftshift/roll, induction on slices, reuse of the C16 spectral "
                  "lemmas) + model-vs-implementation correspondence with the specification executed as the reference simulator",
 }
@@ -54,7 +54,10 @@ ASSUMPTIONS = [
     "ObjectPixelated has no public setter: the ground truth object is written to the optimised parameter `_obj.data`; the probe goes "
     "through the public `probe` setter; ground-truth modes are orthogonal with distinct powers installed in descending, ascending, mixed "
     "or nearly equal order, so the library's Gram-Schmidt + power-sort hard constraint may only re-order them (checked each case)",
-    "scan rotation forced to 0 and transpose off via preprocess(force_com_rotation=0, force_com_transpose=False); descan learning off",
+    "scan rotation / transposition are set through the public preprocess arguments force_com_rotation / force_com_transpose (0 / False in 60 % "
+    "of the configurations, +-90 deg, oblique angles and exchanged axes otherwise; never estimated from the data); the rotated positions are "
+    "modelled numerically (scanPositionsGeneral), the rotated object SHAPE (floor of trigonometric values) is read back, not modelled; "
+    "descan learning off",
     "`constant`: decided only for cases whose fitted constant is within 2e-5 px of the pattern centre (generator: point-symmetric "
     "object, symmetric probe, symmetric raster); others are counted in input_distribution as constant.not-applicable",
     "geometry is read back from the library (padding is enlarged to make the object shape a multiple of 8) and compared with the model",
@@ -114,7 +117,7 @@ def enc_flat(x):
 def ask(drv, obj):
     r = drv.ask(obj)
     if "ok" not in r:
-        raise RuntimeError(f"driver error {r} on op {obj.get('op')}")
+        raise DriverError(f"driver error {r} on op {obj.get('op')}")
     return r["ok"]
 
 
@@ -197,6 +200,11 @@ def gen_cfg(rseed, index=0):
         "obj_kind": "smooth" if (com == "constant" and (r0 % 2 == 0 or r1 % 2 == 0)) else rng.choice(["rough", "rough", "smooth"]),
         "truth_seed": rng.next(),
     }
+    # scan geometry beyond the plain raster: rotation of the scan axes / exchanged fast and slow axis (public preprocess arguments)
+    cfg["rotation_deg"] = 0 if com == "constant" else rng.weighted([(0, 6), (90, 1), (-90, 1), (rng.randint(-80, 80), 3)])
+    cfg["transpose"] = False if com == "constant" else (rng.chance(0.1) or i % 8 in (1, 5))
+    if i % 8 == 5:
+        cfg["rotation_deg"] = 0        # exchanged axes without rotation: its own code path (float32 positions are flipped in place)
     # order in which the mode powers are installed through the probe setter (no order in the quantifier)
     cfg["mode_order"] = rng.weighted([("descending", 1), ("ascending", 2), ("mixed", 2), ("near-equal", 1)]) if K > 1 else "single"
     return cfg
@@ -204,7 +212,8 @@ def gen_cfg(rseed, index=0):
 
 def cfg_sig(cfg, padded):
     r0, r1 = cfg["roi"]
-    return ("pipeline", psig(r0, r1), cfg["obj_type"], cfg["slices"], cfg["modes"], cfg["com"], padded, cfg["dyadic"])
+    return ("pipeline", psig(r0, r1), cfg["obj_type"], cfg["slices"], cfg["modes"], cfg["com"], padded, cfg["dyadic"],
+            cfg["rotation_deg"] != 0, cfg["transpose"])
 
 
 # ----------------------------------------------------------------------------- one configuration
@@ -226,7 +235,34 @@ def amplitude_residual(lt, I, mask, b, n, mean_I):
     return float(e / (b / n) / mean_I)
 
 
+class DriverError(RuntimeError):
+    pass
+
+
 def pipeline_case(ctx, drv, case, light=False):
+    """one configuration; an exception raised inside the real quantem code is a predicate failure (the pipeline cannot even be
+    evaluated for that input), anything else is re-raised as a harness / infrastructure error"""
+    import traceback
+    try:
+        return _pipeline_case(ctx, drv, case, light)
+    except DriverError:
+        raise
+    except Exception as e:   # noqa: BLE001
+        tb = traceback.extract_tb(e.__traceback__)
+        frames = [f for f in tb if "/quantem/" in f.filename.replace("\\", "/")]
+        if not frames:
+            raise
+        where = frames[-1]
+        key = (f"pipeline-raises:{type(e).__name__}:{where.name}:rotation={'0' if case.get('rotation_deg', 0) == 0 else 'nonzero'}"
+               f":transpose={case.get('transpose', False)}")
+        ctx.dist["real-code-exception"] += 1
+        ctx.pred_fail(key, "the real preprocessing / forward pipeline raises on a configuration inside the quantifier", case,
+                      observed=f"{type(e).__name__}: {str(e)[:160]} (at {where.filename.split('/quantem/')[-1]}:{where.lineno} {where.name})",
+                      required="pipeline evaluates, loss at the truth = 0")
+        return False
+
+
+def _pipeline_case(ctx, drv, case, light=False):
     from qv.prng import Rng
     cfg = gen_cfg(case["rseed"], case.get("index", 0))
     r0, r1 = cfg["roi"]
@@ -235,7 +271,7 @@ def pipeline_case(ctx, drv, case, light=False):
     S, K = cfg["slices"], cfg["modes"]
     rng = Rng(cfg["truth_seed"])
     symmetric = cfg["com"] == "constant"
-    shown = {k: cfg[k] for k in ("roi", "scan", "samp", "step_px", "slices", "dz", "modes", "mode_order", "obj_type", "pad", "com", "energy", "counts", "aperture", "obj_kind")}
+    shown = {k: cfg[k] for k in ("roi", "scan", "samp", "step_px", "slices", "dz", "modes", "mode_order", "obj_type", "pad", "com", "rotation_deg", "transpose", "energy", "counts", "aperture", "obj_kind")}
     case.update(shown)
     ctx.dist[f"roi.parity={psig(r0, r1)}"] += 1
     ctx.dist[f"roi={r0}x{r1}"] += 1
@@ -248,6 +284,8 @@ def pipeline_case(ctx, drv, case, light=False):
     ctx.dist[f"step.dyadic={cfg['dyadic']}"] += 1
     ctx.dist[f"obj_kind={cfg['obj_kind']}"] += 1
     ctx.dist[f"mode_order={cfg['mode_order']}"] += 1
+    rot_kind = "0" if cfg["rotation_deg"] == 0 else ("+-90" if abs(cfg["rotation_deg"]) == 90 else "oblique")
+    ctx.dist[f"scan.rotation={rot_kind},transpose={cfg['transpose']}"] += 1
 
     # ---- 1. geometry, read back from the real objects built on dummy data
     probes_c = cp.centred_probe(cfg, rng, symmetric)                       # (K, r0, r1) centred, complex128
@@ -260,21 +298,36 @@ def pipeline_case(ctx, drv, case, light=False):
     pos32 = p0.dset.scan_positions_px.detach().numpy()                      # float32 (n, 2)
     pos = pos32.astype(np.float64)
     padded = pad_used != [0, 0]
-    clipped = bool((pos[:, 0] > H - 1).any() or (pos[:, 1] > W - 1).any())
+    clipped = bool((pos[:, 0] > H - 1).any() or (pos[:, 1] > W - 1).any() or (pos < 0).any())
     ctx.dist[f"pad_used.zero={not padded}"] += 1
     ctx.dist[f"scan_exceeds_object_box={clipped}"] += 1
     ctx.mark(cfg_sig(cfg, padded))
     case.update({"obj_shape": [H, W], "pad_used": pad_used})
+    plain = cfg["rotation_deg"] == 0 and not cfg["transpose"]
+    if not plain:
+        # rotated / transposed scan: positions from the numeric model (cos, sin at Float); the rotated object shape is
+        # read back from the library (floor of trigonometric values: not modelled)
+        mg = ask(drv, {"op": "positions_general", "gr": gr, "gc": gc, "stepR": f2b(float(np.float32(cfg["step"][0]))), "stepC": f2b(float(np.float32(cfg["step"][1]))),
+                       "sampR": f2b(samp_lib[0]), "sampC": f2b(samp_lib[1]), "padR": f2b(pad_used[0]), "padC": f2b(pad_used[1]),
+                       "angle": f2b(float(np.deg2rad(cfg["rotation_deg"]))), "transpose": bool(cfg["transpose"])})
+        corr(ctx, f"scan-positions[rotation={rot_kind},transpose={cfg['transpose']}]", case, np.array([[b2f(a), b2f(b)] for a, b in mg]), pos, 2e-5,
+             note="_set_initial_scan_positions_px with rotation / transposition")
+        if H % 8 or W % 8:
+            ctx.disagree("geometry", case, "multiple of 8", [H, W], "padded object shape")
     # model geometry (exact rationals of the library's own float inputs)
-    g = ask(drv, {"op": "geometry", "gr": gr, "gc": gc, "stepR": cp.frac_str(np.float32(cfg["step"][0])), "stepC": cp.frac_str(np.float32(cfg["step"][1])),
+    g = None if not plain else ask(drv, {"op": "geometry", "gr": gr, "gc": gc, "stepR": cp.frac_str(np.float32(cfg["step"][0])), "stepC": cp.frac_str(np.float32(cfg["step"][1])),
                   "sampR": cp.frac_str(samp_lib[0]), "sampC": cp.frac_str(samp_lib[1]), "R0": r0, "R1": r1, "padR": cfg["pad"][0], "padC": cfg["pad"][1]})
+    if g is None:
+        g = {"pad": pad_used, "shape": [H, W], "positions": [[cp.frac_str(a), cp.frac_str(b)] for a, b in pos32.tolist()]}
     ctx.count()
     # (a disagreement never stops the case: everything downstream uses the library's own geometry, so the
     #  property predicate is still evaluated and can exhibit a failing input)
     if g["pad"] != pad_used or g["shape"] != [H, W]:
         ctx.disagree("geometry", case, {"pad": g["pad"], "shape": g["shape"]}, {"pad": pad_used, "shape": [H, W]}, "padding / object shape (model: multiple of 8)")
     mpos = np.array([[float(Fraction(a)), float(Fraction(b))] for a, b in g["positions"]])
-    if cfg["dyadic"] and samp_lib == cfg["samp"]:
+    if not plain:
+        pass
+    elif cfg["dyadic"] and samp_lib == cfg["samp"]:
         ctx.count()
         if mpos.shape != pos32.shape or not np.array_equal(mpos.astype(np.float32), pos32):
             ctx.disagree("scan-positions-exact", case, mpos.tolist(), pos.tolist(), "dyadic geometry: positions must agree exactly")
